@@ -347,6 +347,8 @@ func RunC20(c *Ctx) {
 		{"object-with-one-wide-member", []byte(`{"data":` + keysObj(20000, "") + "}")},
 		{"big-object-of-objects", []byte("[" + strings.Repeat(keysObj(40, "k")+",", 800) + "{}]")},
 		{"deep", []byte(strings.Repeat(`[{"a":`, 4500) + "0" + strings.Repeat("}]", 4500))},
+		{"one-huge-string", []byte(`["` + strings.Repeat("a", 70000) + `","b"]`)},
+		{"one-huge-escaped-key", []byte(`{"` + strings.Repeat(`k\t`, 30000) + `":"v"}`)},
 		{"big-escaped-strings", []byte("[" + strings.Repeat(`"`+strings.Repeat(`\n`, 500)+`",`, 100) + `""]`)},
 	}
 	smalls := []struct {
